@@ -302,9 +302,18 @@ class BodyLocks:
             aid = len(self.acqs)
             acq = Acq(aid, pos, mode, kind, cls or '?', None, b.where(pos), b.short)
             self.acqs[aid] = acq
+        from flow import forward_taint
         for a in self.acqs.values():
-            a.owns = self.lock_owner(b.blocks[a.pos[0]]['term'])
+            t = b.blocks[a.pos[0]]['term']
+            a.owns = self.lock_owner(t)
             a.own = a.owns[0]
+            a.onfail = '-'
+            if a.kind in ('try', 'timed') and not t['dst']['p']:
+                a.onfail = 'silent'
+                taint = forward_taint(b, {t['dst']['l']}, through_refs=False)
+                for pos2, t2 in b.iter_calls():
+                    if call_matches(t2, r'Option::<T>::(ok_or|ok_or_else|unwrap|expect)$') and t2['args'] and is_local_op(t2['args'][0]) and t2['args'][0]['l'] in taint:
+                        a.onfail = 'error'
 
     # ---------------------------------------------------------------- liveness
     def _liveness(self):
@@ -421,8 +430,8 @@ def relation(held_own, acq_own):
             return 'child'
         if all(s == 'parent' for s in rest):
             return 'parent'
-        if rest[0] == 'child' and 'parent' in rest:
-            return 'same?'      # child then up again: may be the held object itself
+        if ('child' in rest and 'parent' in rest):
+            return 'same?'      # down then up again, or up then down again: may be the held object itself
         return 'other'
     m = len(ap)
     if hp[:m] == ap:
@@ -465,13 +474,13 @@ def verdict(held, acq, rel):
 
 # ------------------------------------------------------------------------------------------ whole-crate graph
 class Entry:
-    __slots__ = ('mode', 'kind', 'cls', 'own', 'chain', 'where')
+    __slots__ = ('mode', 'kind', 'cls', 'own', 'chain', 'where', 'onfail')
 
-    def __init__(self, mode, kind, cls, own, chain, where):
-        self.mode, self.kind, self.cls, self.own, self.chain, self.where = mode, kind, cls, own, chain, where
+    def __init__(self, mode, kind, cls, own, chain, where, onfail='-'):
+        self.mode, self.kind, self.cls, self.own, self.chain, self.where, self.onfail = mode, kind, cls, own, chain, where, onfail
 
     def key(self):
-        return (self.mode, self.kind, self.cls, self.own)
+        return (self.mode, self.kind, self.cls, self.own, self.onfail)
 
     def desc(self):
         return '%s:%s:%s' % (self.cls, self.mode, self.kind)
@@ -575,13 +584,13 @@ class LockGraph:
             else:
                 owns = [entry.own]
         chain = ((callee_short,) + entry.chain)[:6]
-        return [Entry(entry.mode, entry.kind, entry.cls, o, chain, entry.where) for o in owns]
+        return [Entry(entry.mode, entry.kind, entry.cls, o, chain, entry.where, entry.onfail) for o in owns]
 
     def _fixpoint(self):
         for bid, BL in self.bl.items():
             for a in BL.acqs.values():
                 for o in a.owns:
-                    e = Entry(a.mode, a.kind, a.cls, o, (), a.where)
+                    e = Entry(a.mode, a.kind, a.cls, o, (), a.where, a.onfail)
                     self.summary[bid].setdefault(e.key(), e)
         changed = True
         rounds = 0
@@ -606,7 +615,7 @@ class LockGraph:
                     if h.id == a.id:
                         continue
                     for o in a.owns:
-                        self._edge(b, a.pos, h, Entry(a.mode, a.kind, a.cls, o, (), a.where))
+                        self._edge(b, a.pos, h, Entry(a.mode, a.kind, a.cls, o, (), a.where, a.onfail))
             for (pos, callee, args, kind, cons) in self.sites[bid]:
                 held = BL.held_at(pos)
                 if not held:
